@@ -1,6 +1,7 @@
 package arraylist
 
 import (
+	"github.com/emirpasic/gods/v2/containers"
 	"github.com/emirpasic/gods/v2/lists"
 	v "github.com/emirpasic/gods/v2/zzvsup"
 )
@@ -33,4 +34,9 @@ func VHListStep() {
 			v.Assert(len(l.elements) <= cap(l.elements), "inv-len-cap")
 		},
 	})
+}
+
+func VHIter() {
+	l, pre := VGList()
+	containers.VIterStep(func() containers.IteratorWithIndex[int] { return l.Iterator() }, pre, l)
 }
